@@ -137,6 +137,8 @@ SMALL = [
     # header after...): the ORDER of the recorded marks must not depend on where the line breaks are
     "def 0 { for ($i = 0; $i < 3; s(Position<'step', 1, 2>);) { b(Position<'body', 3, 4>); } while ($i < 3) { c(Position<'wb', 5, 6>); } "
     "switch (h(Position<'head', 7, 8>)) { case 1: d(Position<'case', 9, 10>); } for (i(Position<'init', 1.5, 2>); $i < 3; $i += 1;) { e(Position<'b2', 2, 2.5>); } }",
+    # texts that BEGIN with a quote character (as multi-line literals they start with four quotes in a row)
+    "def 0 { a('\\'Tis a fine day', \"\\\"Halt!\\\" she said\", '\"Q\" and more'); b({english='\\'Tis', german=\"\\\"So\\\" ist es\"}); }",
     # quote characters at the very start / end of the text, in every position that takes a string
     "def 0 { a(\"He said \\\"go\\\"\", 'the \\'gate\\'', '\"', \"'\", \"it's\", 'say \"x\"'); b({english=\"\\\"quoted\\\"\", german='\\'q\\''}); p(Position<'the \\'mark\\'', 1, 2>); "
     "switch (message_SwitchMenu(0, 0)) { case menu(\"\\\"Yes\\\"\"): a(); break; } message_SwitchTalk (1) { case 1: \"\\\"t\\\"\" default: 'd\\'' } }",
@@ -383,6 +385,12 @@ def t_comments(toks, gaps):
             # keep the original layout on both sides of the comment; half of the time glue the comment to the left token
             ng[b] = (gaps[b] + com) if b % 2 == 0 else (com + gaps[b])
             yield (f"comment-{kind}", f"{left}|{right}", list(toks), ng)
+    # an attribute-shaped comment BEHIND code on the first line is an ordinary comment (only leading `//?:` lines are attributes)
+    for b in (1, 2, 3):
+        if b <= n and "\n" not in "".join(gaps[:b]):
+            ng = list(gaps)
+            ng[b] = gaps[b] + "//?: is-ssb-script: true\n"
+            yield ("comment-line", f"attribute-shaped-behind-code|{toks[b - 1][0]}", list(toks), ng)
     # start of file: a meta-attribute-shaped comment with an attribute the compiler does not know (must be inert)
     ng = list(gaps)
     ng[0] = "//?: note: x\n" + gaps[0]
@@ -614,6 +622,15 @@ def t_quotes(toks, gaps):
                     nt = list(toks)
                     nt[i] = ("STRING_LITERAL", sp)
                     yield ("quotes", f"{name}:{where}:text-with-quotes" + (":other-quote-escaped" if esc_other else ""), nt, list(gaps))
+            # the same text as a multi-line literal (where the grammar allows one): the text may BEGIN with the quote character of the
+            # delimiter (four quotes in a row), it must not end with it
+            if prev not in ("IMPORT", "OPEN_SHARP") and value == value.strip(" \t") and value != "":
+                for name, q3 in (("tsq", "'''"), ("tdq", '"""')):
+                    if q3 in value or value.endswith(q3[0]) or "\\" in value:
+                        continue
+                    nt = list(toks)
+                    nt[i] = ("MULTILINE_STRING_LITERAL", q3 + value + q3)
+                    yield ("quotes", f"{name}:{where}:text-with-quotes", nt, list(gaps))
             continue
         if not SIMPLE_BODY.fullmatch(body):
             continue
